@@ -59,6 +59,22 @@ def jobs(tier, seed):
     for r, c in [(2, 2), (2, 3)] + ([(3, 3)] if tier != "quick" else []):
         for s, e in ([((0, 0), (r - 1, c - 1)), ((r - 1, c - 1), (0, 1))] if tier == "quick" else _pairs(r, c, "all")):
             out.append(dict(h="solve_targeted", r=r, c=c, s=list(s), e=list(e)))
+    # larger grids "randomly" (as the property's quantifier says): seeded dense base mazes (edge density 0.7: many cycles) with 4 connection bits left
+    # symbolic (16 mazes per instance), far-apart and mid-range endpoint pairs
+    rngb = np.random.default_rng(seed * 7 + 11)
+    for (r, c), nb in ([((4, 3), 3), ((4, 4), 5), ((5, 5), 8), ((3, 5), 2), ((6, 6), 4)] if tier == "quick" else [((4, 3), 6), ((3, 4), 6), ((4, 4), 16), ((5, 5), 24), ((3, 5), 6), ((6, 6), 12), ((8, 8), 6), ((2, 9), 4)]):
+        edges = [(0, i, j) for i in range(r - 1) for j in range(c)] + [(1, i, j) for i in range(r) for j in range(c - 1)]
+        cells = [(i, j) for i in range(r) for j in range(c)]
+        for b in range(nb):
+            free = set(int(x) for x in rngb.choice(len(edges), size=4, replace=False))
+            fix = {f"c_{d}_{i}_{j}": bool(rngb.random() < 0.7) for k, (d, i, j) in enumerate(edges) if k not in free}
+            prs = set()
+            while len(prs) < (6 if tier == "quick" else 12):
+                a, bb = (cells[int(x)] for x in rngb.choice(len(cells), size=2, replace=False))
+                if abs(a[0] - bb[0]) + abs(a[1] - bb[1]) >= 3:
+                    prs.add((a, bb))
+            for a, bb in sorted(prs):
+                out.append(dict(h="astar", r=r, c=c, s=list(a), e=list(bb), fix=fix, max_seconds=3000, label=f"astar:{r}x{c} base#{b} free{sorted(free)} {a}->{bb}"))
     # query histories on one maze object (same start twice, then a repeat of the first query)
     def seqs(r, c, starts, k):
         cells = [(i, j) for i in range(r) for j in range(c)]
@@ -323,7 +339,7 @@ META = dict(
                "LatticeMaze.heuristic", "SolvedMaze.from_targeted_lattice_maze", "TargetedLatticeMaze.__post_init__",
                "SolvedMaze.__init__"],
     bounds=dict(
-        quick="all connection structures (every bit symbolic) on all grids r x c with r*c <= 6 and all ordered (start,end) pairs; 3x3 with 12 pairs; "
+        quick="all connection structures (every bit symbolic) on all grids r x c with r*c <= 6 and all ordered (start,end) pairs; 3x3 with 12 pairs; larger grids around seeded dense base mazes with 4 symbolic bits and 6 endpoint pairs each (4x3: 3 bases, 4x4: 5, 5x5: 8, 3x5: 2, 6x6: 4); "
               "histories of queries on one maze object (two from the same start; on 2x3 also the reverse and a repeat) on 2x3, 2x4 and 3x3 (18 seeded histories)",
         thorough="as quick (query histories: 40 on 3x3, 28 on 2x3 / 2x4), plus 3x3 all 81 pairs, 3x4 and 4x3 with 6 pairs each, 2x8 (all 2^22 mazes) for the pair (0,7)->(1,0), solve_targeted on 3x3 all pairs",
     ),
